@@ -159,5 +159,8 @@ func TestVerifC16Core(t *testing.T) {
 			report("core/untampered-bleed", "bytes left in the stream after the last message", map[string]interface{}{"left": pipe.Len(), "wire": wireLen})
 		}
 		vw.Distinct(fmt.Sprintf("core-%v-%d-%d", isReq, nm, len(msgs[0].payload)))
+		if ci < 2 { // (bin/check needs a non-null samples list)
+			vw.Sample(fmt.Sprintf("case %s: production types, request=%v, %d messages, first payload %d bytes", id, isReq, nm, len(msgs[0].payload)))
+		}
 	}
 }
